@@ -244,7 +244,10 @@ CHOICE_decode_oer(const asn_codec_ctx_t *opt_codec_ctx,
                                   elm->encoding_constraints.oer_constraints,
                                   memb_ptr2, ptr, size);
             if(got < 0) ASN__DECODE_FAILED;
-            if(got == 0) ASN__DECODE_STARVED;
+            if(got == 0) {
+                /* The tag (if seen during this call) has been consumed */
+                RETURN(RC_WMORE);
+            }
             rval.code = RC_OK;
             rval.consumed = got;
         } else if(!elm->type->op->oer_decoder) {
